@@ -155,13 +155,14 @@ Definition mk_not (l : list expr) : option expr :=
 Definition olist {A} (o : option A) : list A := match o with Some x => [x] | None => [] end.
 
 (* the switch of buildExprs deciding on parentheses (only when the list has > 1 element) *)
-(* needsParentheses: clause.Expr and clause.NamedExpr whose SQL has an AND/OR word *)
-Definition rawwrap (x : expr) : bool := match x with XRaw w _ | XNamed w _ => w | _ => false end.
-Definition wrap_of (x : expr) : bool :=
+(* needsParentheses: clause.Expr / clause.NamedExpr whose SQL has an AND/OR word, looked up
+   through any depth of single-member And/Or wrappers *)
+Fixpoint wrap_of (x : expr) : bool :=
   match x with
-  | XOr [y] => rawwrap y
-  | XAnd [y] => rawwrap y
-  | _ => rawwrap x
+  | XRaw w _ | XNamed w _ => w
+  | XOr [y] => wrap_of y
+  | XAnd [y] => wrap_of y
+  | _ => false
   end.
 
 Definition paren (ts : list tok) : list tok := TL :: ts ++ [TR].
